@@ -18,7 +18,13 @@ RULE = ("seeded circuits (asymmetric product states by X / RY(rational angle) on
         "matrix) on ONE simulator, ONE operator object per spec, optionally ONE Measurements container, or ONE "
         "Wavefunction edited through __setitem__; `meas` = one Measurements object whose public `bitstrings` is "
         "replaced / edited / extended between get_counts / get_distribution / get_expectation_values calls "
-        "(non-trivial: width >= 2, a mutation between two queries, a state not invariant under qubit reversal)")
+        "(non-trivial: width >= 2, a mutation between two queries, a state not invariant under qubit reversal).  "
+        "Magnitudes: product states with one or two qubits rotated by a very small rational angle (P[flip] 1e-4 … 1e-12, "
+        "also 1e-2 with thousands of shots) x uniform superposition on up to 9 other qubits, the rare sector fanned out by "
+        "CNOTs, explicit amplitude vectors spanning many orders of magnitude, operators living in the rare sector "
+        "(c(1-Z)/2, projectors with c up to 1e12, coefficients 1e-9 next to 1e6), nearly balanced / one-in-a-billion count "
+        "dicts, dyadic probabilities of 2^-45, one rare shot among thousands; probabilities are compared RELATIVELY "
+        "(1e-10; exact rational reference where the state is a product without cancellation, zero / non-zero must agree)")
 TRUSTED = [
     "rng.choice(a, size=n, p=p) returns exactly n elements of a, never one whose probability is 0, and equals "
     "a[default_rng(seed).choice(len(a), size=n, p=p)] for the same seed (the harness recovers the drawn indices this way)",
@@ -28,8 +34,11 @@ TRUSTED = [
     "modelled by the dense Kronecker matrix Pauli.PSum.denote; its identification with get_sparse_operator is property C09)",
     "the executable embedding Lift.liftMatrix is identified with Spec.lift by property C01 (circuit-level theorems are "
     "stated over Spec.lift)",
-    "float arithmetic: implementation vs exact model compared with absolute tolerance 1e-9 (amplitudes, probabilities, "
-    "expectation values); sampled tuples, keys, key order and counts are compared exactly",
+    "float arithmetic: implementation vs exact model compared with tolerance 1e-12 + 1e-10*|value| (amplitudes, probabilities; "
+    "1e-13*scale + 1e-10*|value| for exact expectation values, 1e-12*|coefficient| for measured ones, 1e-14 for means of "
+    "count dicts); a value whose exact counterpart is >= 1e-24 must not be reported as 0; sampled tuples, keys, key order "
+    "and counts are compared exactly.  The oracle uses the same tolerances against a numpy reference and, where every "
+    "amplitude is a single product of exactly known factors, a purely relative 1e-10 against exact rationals",
 ]
 ASSUMPTIONS = [
     "a Measurements / Wavefunction / simulator object is a plain container: its views are functions of the tuples / "
@@ -43,6 +52,12 @@ ASSUMPTIONS = [
 ]
 
 TOL = 1e-9
+# magnitude-aware comparison of probabilities / amplitudes / expectation values: a value is right if it is within
+# ABS + REL * |reference|; ABS covers the cancellation error of double arithmetic on O(1) intermediates (~1e-16 per
+# operation), REL everything else.  Where the reference is known EXACTLY (explicit Gaussian-rational amplitudes, product
+# circuits without cancellation) the comparison is purely relative and zero / non-zero must agree.
+ABS, REL = 1e-12, 1e-10
+ZERO = 1e-25        # what double arithmetic may leave where the exact value is 0 (cos(pi/2)^2 ~ 4e-33)
 UNITARY_1Q_EXACT = ["X", "Y", "Z", "S", "I"]
 GATES_ANY = ["X", "Y", "Z", "H", "I", "S", "SX", "T", "RX", "RY", "RZ", "PHASE", "U3", "GPi", "GPi2", "RH",
              "CNOT", "CZ", "SWAP", "ISWAP", "CPHASE", "XX", "YY", "ZZ", "XY", "MS"]
@@ -273,6 +288,22 @@ def corpus():
             {"q": "ev", "operator": [_term(1, [[0, "Z"]])], "op_form": "single"}, {"q": "counts"}]},
         {"kind": "meas", "init": {"how": "np_int8", "tuples": [[0, 1, 1, 0], [0, 1, 1, 0], [1, 1, 0, 0], [0, 0, 0, 1]]}, "ops": [
             {"q": "counts"}, {"q": "ev", "operator": [_term(1, [[0, "Z"]]), _term(3, [])]}, {"q": "dist"}]},
+        # class D: a rare sector of total weight 1e-8 spread over 4 outcomes of 2.5e-9 each; the operator lives there
+        {"kind": "views", "circuit": {"n": 3, "ops": [{"g": {"gate": "H", "angles": []}, "qs": [1]},
+                                                      _ry((1 - f(1, 20000) ** 2) / (1 + f(1, 20000) ** 2), 2 * f(1, 20000) / (1 + f(1, 20000) ** 2), 0),
+                                                      {"g": {"gate": "H", "angles": []}, "qs": [2]}]},
+         "n_samples": 9, "seed": 7, "operator": [_term(500000, []), _term(-500000, [[0, "Z"]])], "twice": "plain"},
+        {"kind": "views", "amps": [[rat(f(3, 5) * (1 - f(1, 10 ** 6)) / (1 + f(1, 10 ** 6))), 0], [0, rat(f(4, 5) * (1 - f(1, 10 ** 6)) / (1 + f(1, 10 ** 6)))],
+                                   [rat(f(3, 5) * f(2, 1000) / (1 + f(1, 10 ** 6))), 0], [rat(-f(4, 5) * f(2, 1000) / (1 + f(1, 10 ** 6))), 0]],
+         "n_samples": 5, "seed": 7, "operator": [_term(f(1, 2), []), _term(f(-1, 2), [[0, "Z"]]), _term(f(1, 10 ** 9), [[1, "Z"]])]},
+        # nearly balanced huge counts (a mean of 5e-10), one shot next to a billion
+        {"kind": "freq", "marked": [0], "freqs": [["01", 10 ** 9 + 1], ["10", 10 ** 9]], "twice": True},
+        {"kind": "freq", "marked": [1, 0], "freqs": [["01", 1], ["00", 10 ** 9], ["11", 3 * 10 ** 9]]},
+        {"kind": "dist", "probs": [rat(1 - f(3, 2 ** 40)), rat(f(1, 2 ** 40)), 0, rat(f(2, 2 ** 40))], "twice": True},
+        # one rare shot among thousands, built from a histogram
+        {"kind": "meas", "init": {"how": "from_counts", "tuples": [[1, 0, 1]] * 2999 + [[0, 1, 0]]}, "ops": [
+            {"q": "dist"}, {"q": "counts"}, {"q": "ev", "operator": [_term(f(1, 2), []), _term(f(-1, 2), [[1, "Z"]]), _term(10 ** 6, [[0, "Z"], [1, "Z"]])]},
+            {"m": "set", "i": 0, "tuple": [1, 1, 1]}, {"q": "dist"}, {"q": "ev", "operator": [_term(f(1, 10 ** 9), [[2, "Z"]])]}]},
         # wide count strings (beyond 64 positions), a zero count, marked qubits as a set
         {"kind": "freq", "marked": [0, 69], "freqs": [["1" + "0" * 69, 3], ["0" * 69 + "1", 2], ["0" * 70, 0]], "marked_as": "set", "twice": True},
         {"kind": "dist", "probs": [0, rat(f(1, 4)), 0, 0, rat(f(1, 4)), 0, rat(f(1, 2)), 0], "as": "list", "twice": True},
@@ -443,7 +474,7 @@ def _sibling(rng, prev, base):
         if idx:
             g = cs["ops"][rng.choice(idx)]["g"]
             g = g.get("controlled", g)
-            g["angles"] = [circ.rat_angle(rng, axis_prob=0.1) for _ in g["angles"]]
+            g["angles"] = [_small_angle(rng) if rng.random() < 0.35 else circ.rat_angle(rng, axis_prob=0.1) for _ in g["angles"]]
         else:
             st["fresh"] = True
     elif kind == "move" and cs["ops"] and n >= 2:
@@ -534,6 +565,118 @@ def _amps_session(rng):
     return {"kind": "session", "seed": seed, "container": rng.random() < 0.4, "steps": steps}
 
 
+# ---- class D: tiny-but-legitimate magnitudes (individually negligible, collectively visible; huge next to tiny)
+def _small_angle(rng, exps=(2, 2, 3, 3, 4, 4, 5, 6)):
+    """rational half-angle point of a VERY small rotation: P[flip] = sh^2 ~ 4 t^2, from ~1e-4 down to ~1e-12"""
+    t = Fraction(rng.choice([1, 1, 2, 3, 5]) * rng.choice([-1, 1]), 2 * 10 ** rng.choice(exps))
+    return [rat((1 - t * t) / (1 + t * t)), rat(2 * t / (1 + t * t))]
+
+
+def _tiny_circuit(rng, n, exps=(2, 2, 3, 3, 4, 4, 5, 6), spread=None):
+    """product state: one or two qubits rotated by a very small angle (optionally flipped first, so that the COMMON
+    value is 1), uniform superposition (H) on `spread` of the others, the rest idle or flipped.  Returns (spec, rotated)"""
+    qs = list(range(n))
+    rng.shuffle(qs)
+    nrot = 1 if n < 3 or rng.random() < 0.6 else 2
+    rot, rest = qs[:nrot], qs[nrot:]
+    k = len(rest) if spread is None and rng.random() < 0.5 else rng.randrange(0, len(rest) + 1) if spread is None else min(spread, len(rest))
+    blocks = []
+    for q in rot:
+        b = [_x(q)] if rng.random() < 0.3 else []
+        blocks.append(b + [{"g": {"gate": "RY", "angles": [_small_angle(rng, exps)]}, "qs": [q]}])
+    for q in rest[:k]:
+        b = [_x(q)] if rng.random() < 0.2 else []
+        blocks.append(b + [{"g": {"gate": "H", "angles": []}, "qs": [q]}])
+    for q in rest[k:]:
+        if rng.random() < 0.3:
+            blocks.append([_x(q)])
+    rng.shuffle(blocks)
+    return {"n": n, "ops": [o for b in blocks for o in b]}, rot
+
+
+def _tiny_operator(rng, n, rot):
+    """Z-type operators whose expectation lives in the rare sector: c (1 - Z_r)/2, projectors on two rare qubits with
+    coefficients up to 1e12, tiny coefficients next to ordinary ones"""
+    r = rot[0]
+    others = [q for q in range(n) if q not in rot]
+    kind = rng.choice(["half", "half", "half_big", "proj2", "z", "zz", "tinycoef", "mixed"])
+    if kind == "proj2" and len(rot) < 2:
+        kind = "half_big"
+    if kind in ("half", "half_big"):
+        c = Fraction(1) if kind == "half" else Fraction(10 ** rng.choice([6, 9]))
+        sgn = rng.choice([-1, 1])
+        return [_term(c / 2, []), _term(sgn * c / 2, [[r, "Z"]])]
+    if kind == "proj2":
+        a, b = rot[0], rot[1]
+        c = Fraction(10 ** rng.choice([6, 12]))
+        return [_term(c / 4, []), _term(-c / 4, [[a, "Z"]]), _term(-c / 4, [[b, "Z"]]), _term(c / 4, [[b, "Z"], [a, "Z"]])]
+    if kind == "z":
+        return [_term(1, [[r, "Z"]])]
+    if kind == "zz" and others:
+        return [_term(1, [[r, "Z"], [rng.choice(others), "Z"]]), _term(Fraction(1, 2), [[r, "Z"]])]
+    if kind == "tinycoef":
+        return [_term(Fraction(rng.choice([-3, 1, 7]), 10 ** 9), [[r, "Z"]]), _term(2, [[q, "Z"] for q in sorted(set([r] + others[:1]))]),
+                _term(Fraction(1, 10 ** 12), [])]
+    return [_term(Fraction(10 ** 6), [[r, "Z"]]), _term(Fraction(1, 10 ** 6), [[q, "Z"] for q in sorted(set(rot + others[:2]))])] \
+        + _random_operator(rng, n, ztype=True)[:2]
+
+
+def _tiny_views(rng, n, exps=(2, 2, 3, 3, 4, 4, 5, 6), ns=None, spread=None):
+    cs, rot = _tiny_circuit(rng, n, exps, spread)
+    big_ = 2 ** n
+    return {"kind": "views", "circuit": cs, "seed": rng.randrange(2 ** 31), "operator": _tiny_operator(rng, n, rot),
+            "n_samples": ns if ns is not None else rng.choice([1, max(1, big_ - 1), big_, big_ + 1, 2 * big_ + 3])}
+
+
+def _tiny_entangled(rng, n):
+    """a very small rotation fanned out by CNOTs (a GHZ-like pair of sectors, one of them rare), H on the rest"""
+    qs = list(range(n))
+    rng.shuffle(qs)
+    r = qs[0]
+    fan = qs[1:1 + rng.randrange(1, max(2, n - 1))]
+    ops = [{"g": {"gate": "RY", "angles": [_small_angle(rng, (2, 3, 3, 4))]}, "qs": [r]}]
+    ops += [{"g": {"gate": "CNOT", "angles": []}, "qs": [r, q]} for q in fan]
+    ops += [{"g": {"gate": "H", "angles": []}, "qs": [q]} for q in qs[1 + len(fan):] if rng.random() < 0.7]
+    big_ = 2 ** n
+    return {"kind": "views", "circuit": {"n": n, "ops": ops}, "seed": rng.randrange(2 ** 31),
+            "operator": _tiny_operator(rng, n, [r] + fan[:1]), "n_samples": rng.choice([1, big_, big_ + 1, 3 * big_])}
+
+
+def _tiny_amps(rng, n):
+    """explicit Gaussian-rational unit vector whose amplitudes span many orders of magnitude: a Kronecker product of
+    (cos, sin) of very small / ordinary rational angles, basis vectors and the uniform rational 2-qubit block (1/2,…)"""
+    f = Fraction
+    factors, rot, q = [], [], 0
+    while q < n:
+        r = rng.random()
+        if n - q >= 2 and r < 0.35:
+            factors.append([f(1, 2)] * 4)
+            q += 2
+            continue
+        if r < 0.65 or not rot and q == n - 1:
+            ch, sh = (unrat(x) for x in _small_angle(rng))
+            factors.append([ch, sh] if rng.random() < 0.7 else [sh, ch])
+            rot.append(q)
+        elif r < 0.85:
+            factors.append(list(rng.choice([(f(3, 5), f(4, 5)), (f(5, 13), f(12, 13)), (f(4, 5), f(3, 5))])))
+        else:
+            factors.append(list(rng.choice([(f(1), f(0)), (f(0), f(1))])))
+        q += 1
+    vec = [(f(1), f(0))]
+    for fac in factors:
+        new = []
+        for (re, im) in vec:
+            for x in fac:
+                ph = rng.choice([(1, 0), (1, 0), (0, 1), (-1, 0), (0, -1)])
+                # (re + i im) * x * phase
+                new.append((x * (re * ph[0] - im * ph[1]), x * (re * ph[1] + im * ph[0])))
+        vec = new
+    big_ = 2 ** n
+    return {"kind": "views", "amps": [[rat(re), rat(im)] for re, im in vec], "seed": rng.randrange(2 ** 31),
+            "operator": _tiny_operator(rng, n, rot[:2] or [0]),
+            "n_samples": rng.choice([1, max(1, big_ - 1), big_ + 1, 2 * big_ + 3])}
+
+
 def _rand_tuple(rng, w):
     return [rng.randrange(2) for _ in range(w)]
 
@@ -599,7 +742,13 @@ def _meas_case(rng):
             ops.append({"m": "poison"})
         for _ in range(rng.randrange(1, 3)):
             ops.append(query())
-    return {"kind": "meas", "init": {"how": how, "tuples": shots(n0)}, "ops": ops}
+    init = shots(n0)
+    if w <= 6 and rng.random() < 0.12:
+        # thousands of equal shots and one or two rare ones (the rare outcome has relative frequency ~ 3e-4)
+        init = [list(pool[0])] * rng.randrange(2000, 3500) + [list(pool[1])] * rng.randrange(1, 3)
+        how = rng.choice(["from_counts", "add_counts", "ctor"])
+        ops = [o for o in ops if o.get("m") not in ("replace",)]
+    return {"kind": "meas", "init": {"how": how, "tuples": init}, "ops": ops}
 
 
 def generate(rng, tier):
@@ -655,6 +804,36 @@ def generate(rng, tier):
         if rng.random() < 0.4:
             c["twice"] = rng.choice(["plain", "poison"])
         cases.append(c)
+    # ---- class D: magnitudes.  Product states with one or two very small rotations x uniform superposition on k others
+    # (exact reference: every probability is compared RELATIVELY, zero / non-zero must agree), model-compared up to 6
+    # qubits, oracle-only on 9-10 qubits; both sampling regimes; operators that live in the rare sector
+    for _ in range(60 if big else 14):
+        n = rng.choice([2, 3, 3, 4, 4, 5, 5] + ([6] if big else []))
+        c = _tiny_views(rng, n)
+        if rng.random() < 0.5:
+            c["twice"] = rng.choice(["plain", "poison"])
+        if rng.random() < 0.25:
+            c["op_form"] = rng.choice(["iter", "str", "pad"])
+        cases.append(c)
+    for _ in range(5 if big else 2):
+        n = rng.choice([9, 9, 10]) if big else 9
+        cases.append(_tiny_views(rng, n, exps=(3, 3, 4), ns=rng.choice([3, 2 ** n + 1]), spread=n - 2))  # oracle only
+    # many shots on a small register with a rare sector that does get sampled (P ~ 1e-4 … 1e-2)
+    for _ in range(8 if big else 3):
+        n = rng.choice([2, 3, 4])
+        cases.append(_tiny_views(rng, n, exps=(1, 1, 2), ns=rng.choice([2500, 4097])))
+    # the rare sector fanned out by CNOTs (entangled; float reference, ABS + REL tolerance)
+    for _ in range(30 if big else 6):
+        cases.append(_tiny_entangled(rng, rng.choice([2, 3, 4, 5])))
+    # explicit amplitudes spanning many orders of magnitude (exact reference), model-compared up to 6 (thorough 7) qubits
+    for _ in range(40 if big else 10):
+        n = rng.choice([2, 3, 3, 4, 4, 5, 6] + ([6, 7] if big else []))     # (the exact model takes ~2 s at 8 qubits)
+        c = _tiny_amps(rng, n)
+        if rng.random() < 0.5:
+            c["twice"] = rng.choice(["plain", "poison"])
+        cases.append(c)
+    for _ in range(4 if big else 1):
+        cases.append(_tiny_amps(rng, rng.choice([9, 10])))                                                 # oracle only
     # many samples on a small register
     for _ in range(10 if big else 3):
         n = rng.randrange(1, 4)
@@ -694,7 +873,29 @@ def generate(rng, tier):
             freqs[rng.randrange(len(freqs))][1] = 0        # an outcome listed with count zero
             if not any(v for _, v in freqs):
                 freqs[0][1] = 1
+        r = rng.random()
+        if len(freqs) >= 2 and r < 0.12:
+            # nearly balanced huge counts: a tiny but non-zero mean for parities that split them
+            base = 10 ** rng.randrange(6, 12)
+            for kv in freqs:
+                kv[1] = base + rng.randrange(0, 3)
+        elif len(freqs) >= 2 and r < 0.2:
+            # one or two shots next to billions
+            for kv in freqs:
+                kv[1] = 10 ** rng.randrange(8, 12)
+            freqs[rng.randrange(len(freqs))][1] = rng.randrange(1, 3)
         marked = rng.sample(range(w), rng.randrange(0, min(w, 8) + 1))
+        if rng.random() < 0.1:
+            # two outcomes that differ in ONE marked position, almost equally often among billions of shots:
+            # the mean is (d1 - d2) / (2 base), tiny and not zero
+            q0 = rng.randrange(w)
+            a = [rng.randrange(2) for _ in range(w)]
+            b = list(a)
+            b[q0] ^= 1
+            base = 10 ** rng.randrange(6, 12)
+            freqs = [["".join(map(str, a)), base + rng.randrange(2, 5)], ["".join(map(str, b)), base + rng.randrange(0, 2)]]
+            marked = [q0] + [q for q in marked if q != q0][:3]
+            rng.shuffle(marked)
         if rng.random() < 0.3:
             marked.sort(reverse=rng.random() < 0.5)
         c = {"kind": "freq", "marked": marked, "freqs": freqs}
@@ -721,6 +922,18 @@ def generate(rng, tier):
         probs = [0] * dim
         for i, p in zip(rng.sample(range(dim), len(parts)), parts):
             probs[i] = rat(Fraction(p, den))
+        if rng.random() < 0.25:
+            # tiny dyadic weights (exact in doubles, the complement too) next to ordinary ones
+            e = rng.choice([30, 34, 40, 45])
+            idx = [i for i, p_ in enumerate(probs) if p_ != 0]
+            zeros = [i for i, p_ in enumerate(probs) if p_ == 0]
+            tiny = [(i, Fraction(rng.randrange(1, 8), 2 ** e)) for i in rng.sample(zeros, min(len(zeros), rng.randrange(1, 4)))]
+            if idx and tiny:
+                tot = sum(v for _, v in tiny)
+                for i, v in tiny:
+                    probs[i] = rat(v)
+                j = max(idx, key=lambda i: unrat(probs[i]))
+                probs[j] = rat(unrat(probs[j]) - tot)
         c = {"kind": "dist", "probs": probs}
         if rng.random() < 0.3:
             c["as"] = "list"
@@ -765,6 +978,100 @@ def _ref_state_uncached(case, start):
             mat = circ.impl_matrix_to_numpy(circ.build_gate(o["g"]).matrix)
         state = circ.embed_reference(mat, o["qs"], n) @ state
     return state
+
+
+_EXACT_MEMO = {}
+
+
+def _exact_probs(c):
+    """(probabilities as Fractions, amplitudes as python complex) indexed MSB-first, where both can be written down
+    EXACTLY without the library and double arithmetic is accurate to ~1e-15 RELATIVE on every entry (each amplitude is a
+    single product, no cancellation):  explicit Gaussian-rational amplitude vectors;  circuits made of one-qubit gates
+    X / Z / I and at most ONE H or ONE RY(rational half-angle point) per qubit.  None otherwise."""
+    if "amps" in c:
+        ps = [unrat(a[0]) ** 2 + unrat(a[1]) ** 2 for a in c["amps"]]
+        return ps, [_cplx(a) for a in c["amps"]]
+    key = common.canon(c["circuit"])
+    if key in _EXACT_MEMO:
+        return _EXACT_MEMO[key]
+    n = _width(c)
+    vec = [[Fraction(1), Fraction(0)] for _ in range(n)]
+    halves = [0] * n            # number of 1/sqrt(2) factors per qubit
+    mixing = [0] * n
+    ok = n <= 12
+    for o in c["circuit"]["ops"]:
+        g = o["g"]
+        if not ok or "gate" not in g or len(o["qs"]) != 1 or g["gate"] not in ("X", "Z", "I", "H", "RY"):
+            ok = False
+            break
+        q = o["qs"][0]
+        a, b = vec[q]
+        if g["gate"] == "X":
+            vec[q] = [b, a]
+        elif g["gate"] == "Z":
+            vec[q] = [a, -b]
+        elif g["gate"] == "H":
+            vec[q] = [a + b, a - b]
+            halves[q] += 1
+            mixing[q] += 1
+        elif g["gate"] == "RY":
+            ch, sh = unrat(g["angles"][0][0]), unrat(g["angles"][0][1])
+            vec[q] = [ch * a - sh * b, sh * a + ch * b]
+            mixing[q] += 1
+        if mixing[q] > 1:
+            ok = False
+    res = None
+    if ok:
+        h = sum(halves)
+        pq = [[v[0] ** 2 / 2 ** halves[q], v[1] ** 2 / 2 ** halves[q]] for q, v in enumerate(vec)]
+        fv = [[float(v[0]), float(v[1])] for v in vec]
+        ps, amps = [], []
+        for i in range(2 ** n):
+            bits = _msb_bits(i, n)
+            pr, am = Fraction(1), 1.0
+            for q, bq in enumerate(bits):
+                pr *= pq[q][bq]
+                am *= fv[q][bq]
+            ps.append(pr)
+            amps.append(complex(am / 2 ** (h / 2)))
+        res = (ps, amps)
+    if len(_EXACT_MEMO) > 5000:
+        _EXACT_MEMO.clear()
+    _EXACT_MEMO[key] = res
+    return res
+
+
+def _prob_wrong(got, p_float, p_exact):
+    """None, or why the reported probability `got` is not the probability of that outcome.  With an exact reference:
+    relative 1e-10, and exactly-zero / non-zero must agree; otherwise ABS + REL * p against the float reference."""
+    if p_exact is not None:
+        if p_exact == 0:
+            return None if abs(got) <= ZERO else f"reported {got!r}, the exact probability is 0"
+        pe = float(p_exact)
+        if got == 0:
+            return f"reported 0, the exact probability is {pe!r} (not zero)"
+        return None if abs(got - pe) <= REL * pe else f"reported {got!r}, the exact probability is {pe!r} (relative error {abs(got - pe) / pe:.2e})"
+    if abs(got - p_float) > ABS + REL * p_float:
+        return f"reported {got!r}, |amplitude|^2 is {p_float!r}"
+    if p_float >= 1e-24 and got == 0:
+        return f"reported 0, |amplitude|^2 is {p_float!r} (not zero)"
+    return None
+
+
+def _state_wrong(wf, ref, amps_exact):
+    """index of the first amplitude of `wf` that is not the reference amplitude (magnitude-aware), or None"""
+    import numpy as np
+    if wf.shape != ref.shape:
+        return 0
+    if amps_exact is not None:
+        ex = np.array(amps_exact, dtype=complex)
+        bad = np.abs(wf - ex) > REL * np.abs(ex) + ZERO ** 0.5
+        bad |= (np.abs(ex) >= 1e-150) & (wf == 0)
+    else:
+        bad = np.abs(wf - ref) > ABS + REL * np.abs(ref)
+        bad |= (np.abs(ref) >= 1e-12) & (wf == 0)
+    idx = np.nonzero(bad)[0]
+    return int(idx[0]) if len(idx) else None
 
 
 _PAULI = None
@@ -1326,20 +1633,23 @@ def _cmp_kv(name, impl, model, keyf):
         return f"{name}: keys/order differ: impl {[kv[0] for kv in impl][:8]} model {[kv[0] for kv in model][:8]}"
     for (k1, v1), (_, v2) in zip(impl, model):
         mv = common.cyc_to_complex(v2)
-        if abs(v1 - mv) > TOL:
-            return f"{name}: value at key {k1}: impl {v1} model {mv}"
+        if abs(v1 - mv) > ABS + REL * abs(mv):
+            return f"{name}: value at key {k1}: impl {v1!r} model {mv!r}"
+        if abs(mv) >= 1e-24 and v1 == 0:
+            return f"{name}: value at key {k1}: impl reports 0, the exact model value {mv!r} is not zero"
     return None
 
 
-def _cmp_measured(name, mi, mm, scale):
+def _cmp_measured(name, mi, mm, coeffs):
     if _is_err(mi) or isinstance(mm, str):
         if _status(mi) != (mm if isinstance(mm, str) else None):
             return f"{name}: impl {str(mi)[:100]} model {str(mm)[:100]}"
         return None
     if len(mi) != len(mm):
         return f"{name}: {len(mi)} values, model {len(mm)}"
-    for a, b in zip(mi, mm):
-        if abs(complex(a[0], a[1]) - common.cyc_to_complex(b)) > TOL * scale:
+    for a, b, cf in zip(mi, mm, coeffs):
+        # coefficient x (exact shot average): relative to the coefficient
+        if abs(complex(a[0], a[1]) - common.cyc_to_complex(b)) > 1e-12 * abs(cf):
             return f"{name}: impl {mi} model {[common.cyc_to_complex(x) for x in mm]}"
     return None
 
@@ -1374,11 +1684,12 @@ def _compare_pass(c, out, r, tag=""):
         elif mi != mm:
             return f"{tag}{name}: impl {str(mi)[:160]} model {str(mm)[:160]} (draws {out.get('draws')})"
     scale = 1 + sum(abs(_cplx(t["c"])) for t in c["operator"])
-    msg = _cmp_measured(tag + "Measurements.get_expectation_values", out["measured"], r["measured"], scale)
+    coeffs = [_cplx(t["c"]) for t in c["operator"]]
+    msg = _cmp_measured(tag + "Measurements.get_expectation_values", out["measured"], r["measured"], coeffs)
     if msg:
         return msg
     if "measured_b" in out:
-        msg = _cmp_measured(tag + "Measurements.get_expectation_values(bessel)", out["measured_b"], r["measured"], scale)
+        msg = _cmp_measured(tag + "Measurements.get_expectation_values(bessel)", out["measured_b"], r["measured"], coeffs)
         if msg:
             return msg
     if "mdist" in out and "mdist" in r and not (_is_err(out["mdist"]) and out["mdist"]["err"] == "err:empty"):
@@ -1392,8 +1703,8 @@ def _compare_pass(c, out, r, tag=""):
     if _is_err(mi) or isinstance(mm, str):
         if _status(mi) != (mm if isinstance(mm, str) else None):
             return f"{tag}get_exact_expectation_values: impl {str(mi)[:100]} model {str(mm)[:100]}"
-    elif abs(mi - common.cyc_to_complex(mm).real) > TOL * scale:
-        return f"{tag}get_exact_expectation_values: impl {mi} model {common.cyc_to_complex(mm).real}"
+    elif abs(mi - common.cyc_to_complex(mm).real) > 1e-13 * scale + REL * abs(common.cyc_to_complex(mm).real):
+        return f"{tag}get_exact_expectation_values: impl {mi!r} model {common.cyc_to_complex(mm).real!r}"
     return None
 
 
@@ -1421,8 +1732,9 @@ def _compare_views(c, out, r):
             if _is_err(o[name]) or len(o[name]) != len(mw):
                 return f"{tag}{name}: impl {str(o[name])[:100]} model has {len(mw)} amplitudes"
             for i, (a, b) in enumerate(zip(o[name], mw)):
-                if abs(complex(a[0], a[1]) - common.cyc_to_complex(b)) > TOL:
-                    return f"{tag}{name} amplitude {i}: impl {a} model {common.cyc_to_complex(b)}"
+                mv = common.cyc_to_complex(b)
+                if abs(complex(a[0], a[1]) - mv) > ABS + REL * abs(mv) or (abs(mv) >= 1e-12 and a[0] == 0 and a[1] == 0):
+                    return f"{tag}{name} amplitude {i}: impl {a} model {mv!r}"
         msg = _compare_pass(c, o, r, tag)
         if msg:
             return msg
@@ -1442,7 +1754,7 @@ def compare(c, out, resp):
         for name in ("value", "value2"):
             if name == "value2" and name not in out:
                 continue
-            if name not in out or _is_err(out[name]) or abs(out[name] - float(unrat(r))) > 1e-12:
+            if name not in out or _is_err(out[name]) or abs(out[name] - float(unrat(r))) > 1e-14:
                 return f"get_expectation_value_from_frequencies ({name}): impl {out} model {r}"
         return None
     if k == "dist":
@@ -1474,8 +1786,7 @@ def compare(c, out, resp):
                 if msg:
                     return msg
             else:
-                scale = 1 + sum(abs(_cplx(t["c"])) for t in o["operator"])
-                msg = _cmp_measured(tag + "get_expectation_values", got, rr["measured"], scale)
+                msg = _cmp_measured(tag + "get_expectation_values", got, rr["measured"], [_cplx(t["c"]) for t in o["operator"]])
                 if msg:
                     return msg
         return None
@@ -1547,7 +1858,7 @@ def _oracle_meas(c, out):
             scale = 1 + sum(abs(_cplx(t["c"])) for t in opspec)
             for t, v in zip(opspec, got):
                 wantv = _cplx(t["c"]) * float(_parity_avg([int(q) for q, _ in t["ops"]], st))
-                if abs(complex(v[0], v[1]) - wantv) > TOL * scale:
+                if abs(complex(v[0], v[1]) - wantv) > 1e-12 * abs(_cplx(t["c"])):
                     return ("history-measured-expectation",
                             where + f"term {t}: value from measurements {v}, eigenvalue average over the tuples {wantv}")
     if out.get("final") != [list(t) for t in final]:
@@ -1573,7 +1884,7 @@ def oracle(c, out):
                 continue
             if _is_err(out[name]):
                 return ("frequencies-raise", f"get_expectation_value_from_frequencies raised {out[name]} when called again with the same arguments")
-            if abs(out[name] - float(want)) > 1e-12:
+            if abs(out[name] - float(want)) > 1e-14:      # (a mean of 1e-10 is a mean of 1e-10, not 0)
                 return ("frequencies-parity", f"expectation from counts {out[name]} ({name}) but position-q parity average is {float(want)}")
         return None
     if k == "dist":
@@ -1641,14 +1952,19 @@ def _oracle_views(c, out):
         return (_sig(n, "wavefunction-raise"), f"get_wavefunction raised on a valid circuit: {out['wf']}")
     ref = _ref_state(c)
     probs = np.abs(ref) ** 2
+    exact = _exact_probs(c)
+    p_exact, a_exact = exact if exact is not None else (None, None)
     wf = np.array([complex(a[0], a[1]) for a in out["wf"]])
-    if wf.shape != ref.shape or np.max(np.abs(wf - ref)) > TOL:
-        return (_sig(n, "wavefunction-qubit-order"), f"state vector {wf.tolist()[:8]} differs from gates-on-qubit-q reference {ref.tolist()[:8]}")
+    bad = _state_wrong(wf, ref, a_exact)
+    if bad is not None:
+        lo = max(0, min(bad - 2, len(ref) - 8))
+        return (_sig(n, "wavefunction-qubit-order"), f"state vector differs from the gates-on-qubit-q reference at basis index {bad} = {_msb_bits(bad, n)}: "
+                f"{wf.tolist()[bad] if bad < len(wf) else None!r} vs {(a_exact[bad] if a_exact is not None else ref[bad])!r}; entries {lo}..{lo + 7}: {wf.tolist()[lo:lo + 8]} vs {ref.tolist()[lo:lo + 8]}")
     if "wf0" in out:
         if _is_err(out["wf0"]):
             return (_sig(n, "wavefunction-raise"), f"get_wavefunction(circuit, initial_state=|0…0>) raised: {out['wf0']}")
         w0 = np.array([complex(a[0], a[1]) for a in out["wf0"]])
-        if w0.shape != ref.shape or np.max(np.abs(w0 - ref)) > TOL:
+        if _state_wrong(w0, ref, a_exact) is not None:
             return (_sig(n, "wavefunction-qubit-order"), f"state vector from the explicit initial state |0…0> {w0.tolist()[:8]} differs from gates-on-qubit-q reference {ref.tolist()[:8]}")
     if "wfk" in out:
         k0 = c["seed"] % (2 ** n)
@@ -1656,19 +1972,37 @@ def _oracle_views(c, out):
             return (_sig(n, "wavefunction-raise"), f"get_wavefunction(circuit, initial_state=basis state {k0}) raised: {out['wfk']}")
         refk = _ref_state(c, start=k0)
         wk = np.array([complex(a[0], a[1]) for a in out["wfk"]])
-        if wk.shape != refk.shape or np.max(np.abs(wk - refk)) > TOL:
+        if _state_wrong(wk, refk, None) is not None:
             return (_sig(n, "wavefunction-qubit-order"), f"state vector from initial basis state {k0} = {_msb_bits(k0, n)}: {wk.tolist()[:8]} differs from gates-on-qubit-q reference {refk.tolist()[:8]}")
-    # (get_outcome_probs is an internal view – its key convention is checked by the correspondence only; the property
-    #  speaks about the state vector, the exact distribution, the samples, the counts and the expectation values)
+    # get_outcome_probs is an internal view – its KEY convention is checked by the correspondence only; its values are
+    # the outcome probabilities whatever the keys: as a multiset they are |amplitude|^2, and they sum to 1
+    if "outcome_probs" in out and len(out["outcome_probs"]) == 2 ** n:
+        vals = sorted(v for _, v in out["outcome_probs"])
+        order = sorted(range(2 ** n), key=lambda i: (p_exact[i] if p_exact is not None else probs[i]))
+        for v, i in zip(vals, order):
+            why = _prob_wrong(v, probs[i], p_exact[i] if p_exact is not None else None)
+            if why:
+                return (_sig(n, "outcome-probs-values"), f"Wavefunction.get_outcome_probs: the {2 ** n} values are not the outcome probabilities: {why}")
+        if abs(math.fsum(vals) - 1) > 1e-12 and abs(math.fsum(probs) - 1) <= 1e-13:
+            return (_sig(n, "outcome-probs-values"), f"Wavefunction.get_outcome_probs: values sum to {math.fsum(vals)!r}")
     if _is_err(out["dist"]):
         return (_sig(n, "dist-raise"), f"exact distribution raised: {out['dist']}")
     got = {tuple(kv[0]): kv[1] for kv in out["dist"]}
     if len(got) != 2 ** n:
         return (_sig(n, "dist-key-order"), f"exact distribution has {len(got)} keys for width {n}")
+    first = None
     for i in range(2 ** n):
         b = _msb_bits(i, n)
-        if b not in got or abs(got[b] - probs[i]) > TOL:
-            return (_sig(n, "dist-key-order"), f"exact distribution at {b}: {got.get(b)} but |amp[{i}]|^2 = {probs[i]}")
+        why = "no such key" if b not in got else _prob_wrong(got[b], probs[i], p_exact[i] if p_exact is not None else None)
+        if why and (first is None or ("not zero" in why and "not zero" not in first[1])):
+            first = (i, why)       # (an outcome wrongly declared impossible says more than its renormalised neighbours)
+            if "not zero" in why:
+                break
+    if first is not None:
+        i, why = first
+        return (_sig(n, "dist-key-order"), f"exact distribution at {_msb_bits(i, n)} (basis index {i}): {why}")
+    if abs(math.fsum(got.values()) - 1) > 1e-12 and abs(math.fsum(probs) - 1) <= 1e-13:
+        return (_sig(n, "dist-key-order"), f"exact distribution sums to {math.fsum(got.values())!r}")
     ns = c["n_samples"]
     samples = None
     if ns >= 1:
@@ -1682,9 +2016,9 @@ def _oracle_views(c, out):
                 return (_sig(n, "sample-not-tuple"), f"sampled outcome is not a tuple: {t}")
             if len(t) != n:
                 return (_sig(n, "sample-length"), f"sampled tuple {t} has length {len(t)}, register width {n}")
-            if any(b not in (0, 1) for b in t) or probs[_index_of(t)] < 1e-24:
+            if any(b not in (0, 1) for b in t) or (p_exact[_index_of(t)] == 0 if p_exact is not None else probs[_index_of(t)] < 1e-24):
                 return (_sig(n, "sample-zero-prob"), f"sampled tuple {t} has exact probability {probs[_index_of(t)] if all(b in (0, 1) for b in t) else None}")
-            if abs(got.get(tuple(t), 0.0)) < 1e-24:
+            if got.get(tuple(t), 0.0) == 0 or (p_exact is None and abs(got.get(tuple(t), 0.0)) < 1e-24):
                 return (_sig(n, "sample-zero-prob"), f"sampled tuple {t} has probability 0 in the exact distribution object")
         cnt = {}
         for t in samples:
@@ -1714,10 +2048,26 @@ def _oracle_views(c, out):
     if in_range:
         if _is_err(out["exact"]):
             return (_sig(n, "exact-raise"), f"get_exact_expectation_values raised: {out['exact']}")
-        want = _ref_expectation(opspec, ref, n).real
-        if abs(out["exact"] - want) > TOL * scale:
-            return (_sig(n, "exact-expectation"), f"exact expectation {out['exact']} but eigenvalue average under the exact distribution is {want}")
         ztype = all(p == "Z" for t in opspec for _, p in t["ops"])
+        if ztype:
+            # eigenvalue of the operator on every outcome (exact: rational coefficients, signs)
+            coef = [(unrat(t["c"][0]), unrat(t["c"][1]), [int(q) for q, _ in t["ops"]]) for t in opspec]
+            eig = []
+            for i in range(2 ** n):
+                b = _msb_bits(i, n)
+                eig.append(sum(cr * (-1) ** sum(b[q] for q in qs_) for cr, _, qs_ in coef))
+            if p_exact is not None:
+                want = float(sum(pe * e for pe, e in zip(p_exact, eig)))
+            else:
+                want = math.fsum(float(pr) * float(e) for pr, e in zip(probs, eig))
+            # ... and under the exact distribution OBJECT the implementation returned
+            avg_obj = math.fsum(got[_msb_bits(i, n)] * float(e) for i, e in enumerate(eig))
+            if abs(out["exact"] - avg_obj) > 1e-12 * scale + REL * abs(avg_obj):
+                return (_sig(n, "exact-expectation"), f"exact expectation {out['exact']!r} but the average of the eigenvalues under the exact outcome distribution returned for the same circuit is {avg_obj!r}")
+        else:
+            want = _ref_expectation(opspec, ref, n).real
+        if abs(out["exact"] - want) > 1e-13 * scale + REL * abs(want):
+            return (_sig(n, "exact-expectation"), f"exact expectation {out['exact']!r} but eigenvalue average under the exact distribution is {want!r}")
         if ztype and samples is not None:
             if _is_err(out["measured"]):
                 return ("width-0-measured-raise" if n == 0 else "measured-raise",
@@ -1733,7 +2083,7 @@ def _oracle_views(c, out):
                     marked = [int(q) for q, _ in t["ops"]]
                     avg = sum(Fraction((-1) ** sum(s[q] for q in marked)) for s in samples) / len(samples)
                     wantv = _cplx(t["c"]) * float(avg)
-                    if abs(complex(v[0], v[1]) - wantv) > TOL * scale:
+                    if abs(complex(v[0], v[1]) - wantv) > 1e-12 * abs(_cplx(t["c"])):
                         return (_sig(n, "measured-expectation"), f"term {t}: value from measurements {v}{' (with Bessel correction)' if name == 'measured_b' else ''}, eigenvalue average over the shots {wantv}")
     return None
 
